@@ -25,6 +25,8 @@ def main():
     rep = Report(args.pid, args.tier if args.tier in ('quick', 'thorough') else 'quick', seed)
     try:
         mod.run(rep, args)
+        from props import findings
+        findings.report_known(rep)
     except Exception:
         traceback.print_exc()
         rep.crashes.append(traceback.format_exc())
